@@ -254,6 +254,27 @@ def _get_function_parameters(func):
         # Python 2
         return inspect.getargspec(func).args
 
+def _get_grid_key(grid):
+    '''Get the part of an instance cache key that stands for a grid.
+
+    Grids compare, and therefore hash, equal when their coordinates are equal, whatever their
+    weights. Instances are generally built from the weights as well (eg. by any Fourier transform),
+    so the key has to distinguish grids that differ in their weights only.
+
+    Parameters
+    ----------
+    grid : Grid
+        The grid for which to compute the key.
+
+    Returns
+    -------
+    int
+        The key.
+    '''
+    weights = np.ascontiguousarray(grid.weights, dtype='float') + 0.0
+
+    return hash((hash(grid), weights.shape, weights.tobytes()))
+
 INPUT_GRID_DEPENDENT = 1
 OUTPUT_GRID_DEPENDENT = 2
 WAVELENGTH_DEPENDENT = 4
@@ -318,11 +339,14 @@ class AgnosticOpticalElement(OpticalElement):
                 if output_grid is None:
                     raise ValueError('Grid dependent, but no grids are given for lookup.')
 
-                key_parts.append([(None, hash(output_grid))])
+                key_parts.append([(None, _get_grid_key(output_grid))])
             elif output_grid is None:
-                key_parts.append([(hash(input_grid), None)])
+                key_parts.append([(_get_grid_key(input_grid), None)])
             else:
-                key_parts.append([(hash(input_grid), hash(output_grid)), (hash(input_grid), None), (None, hash(output_grid))])
+                input_key = _get_grid_key(input_grid)
+                output_key = _get_grid_key(output_grid)
+
+                key_parts.append([(input_key, output_key), (input_key, None), (None, output_key)])
         else:
             key_parts.append([(None, None)])
 
@@ -862,9 +886,9 @@ def make_agnostic_optical_element(grid_dependent_arguments=None, wavelength_depe
 
                 if grid_dependent:
                     if input_grid is not None:
-                        cache_key += ('input', input_grid)
+                        cache_key += ('input', _get_grid_key(input_grid))
                     else:
-                        cache_key += ('output', output_grid)
+                        cache_key += ('output', _get_grid_key(output_grid))
 
                 if wavelength_dependent:
                     # Use approximate wavelength as a key (match if within 1e-9 relatively).
@@ -967,7 +991,7 @@ def make_agnostic_optical_element(grid_dependent_arguments=None, wavelength_depe
                 self._cache[cache_key] = elem
 
                 if grid_dependent:
-                    cache_key_output = ('output', elem.output_grid)
+                    cache_key_output = ('output', _get_grid_key(elem.output_grid))
                     if wavelength_dependent:
                         cache_key_output += (wavelength_key, )
 
